@@ -247,6 +247,7 @@ def _run_history(args):
     ciw = _ciw()
     shared = {}
     live = []
+    uses = {}
     nsims = 0
     out = []
     # a history starts from a FIXED generator state (not from whatever the previous history of this worker left):
@@ -268,17 +269,19 @@ def _run_history(args):
             N = net(c, "fresh" if kind == "run_fresh" else "shared")
             Q = new_sim(N, c)
             nsims += 1
+            uses[id(N)] = uses.get(id(N), 0) + 1
             run_sim(Q, c, 0.5 if kind == "leave_live" else 1.0)
             if kind == "leave_live":
-                live.append(Q)
+                live.append((Q, id(N), uses[id(N)]))
         elif kind == "step_live":
-            for Q in live:
+            for Q, nid, born in live:
                 try:
                     Q.simulate_until_max_time(T * 0.75)
                 except Exception as e:
                     # a live simulation whose Network has meanwhile been used for another Simulation
                     out.append(("interleaved_simulations_on_one_network_crash",
-                                {"config": cfg, "history": list(ops), "error": "%s: %s" % (type(e).__name__, str(e)[:100])}))
+                                {"config": cfg, "history": list(ops), "error": "%s: %s" % (type(e).__name__, str(e)[:100]),
+                                 "network_shared_by_several_simulations": uses[nid] >= 2}))
     ciw.seed(seed)
     N = net(cfg, mode)
     Q = new_sim(N, cfg)
